@@ -4,6 +4,9 @@ import Driver.Util
 # Engine `route`: N proxy servers with their own registries and arbitrary routing views (C06, C01)
 ops (strings hex-encoded, `-` empty; node index `i` is node id `n<i>`, listening on the
 symbolic address `a<i>`; `dead` is an address nobody listens on):
+  cfg <i> <key>=<value> ...                   (before `nodes`) legal proxy configuration of node i: access log on/off and level,
+                                              request/response header allow/block lists, timeouts, header limit, auth.
+                                              The model ignores it entirely: none of it may influence routing.  -> ok
   nodes <N>                                   N fresh nodes (NewState + NewLoadBalancedManager + proxy.NewServer)
   up <i> <uid> <ep> | rmup <i> <uid> <ep>     AddConn / RemoveConn of fake upstream uid at node i   -> ok <Endpoints()>
   view <i> <id> <status> <addr> <ep>=<n> ...  node i's cluster.State.AddNode(row about <id>)        -> ok
@@ -115,6 +118,7 @@ def mkLib (split ip : String) : Lib :=
     parseIP := fun _ => ip = "1" }
 
 def step (s : St) : List String → St × String
+  | "cfg" :: _ => (s, "ok")
   | ["nodes", n] =>
     match n.toNat? with
     | some k => ({ n := k, w := mkWorld k, ups := [] }, "ok")
